@@ -1,14 +1,17 @@
 import NbioVerif.Properties.C14
 #print axioms WsCb.inv_run
+#print axioms WsCb.c14_queue_is_execq
 #print axioms WsCb.c14_callback_order
+#print axioms WsCb.c14_one_at_a_time
 #print axioms WsCb.c14_callbacks_exactly_once
 #print axioms WsCb.c14_open_first
+#print axioms WsCb.c14_open_completes_before_messages
 #print axioms WsCb.c14_close_once_last
-#print axioms WsCb.c14_single_drainer
+#print axioms WsCb.c14_failed_upgrade_no_callbacks
+#print axioms WsCb.c14_transfer_open_race_counterexample
 #print axioms SendQ.inv_run
 #print axioms SendQ.c14_wire_prefix_of_accepted
 #print axioms SendQ.c14_frames_whole
 #print axioms SendQ.c14_queued_never_cut
 #print axioms SendQ.c14_direct_cut_means_dead
 #print axioms SendQ.c14_bounded_queue_partial_counterexample
-#print axioms WsCb.c14_transfer_open_race_counterexample
